@@ -613,6 +613,14 @@ pub fn gen_fuzz(rec: &mut Recorder, rng: &mut StdRng, n: usize) {
             Ok(Err(e)) => ev["res"] = json!({"p": "err", "v": enc_value(&Value::Empty), "e": enc_error(e)}),
             Err(p) => ev["res"] = json!({"p": "panic", "v": enc_value(&Value::Empty), "e": no_err(), "panic": p}),
         }
+        // C01: the same input through every entry point and formatter; a panic anywhere replaces the recorded outcome
+        let tree = match &r {
+            Ok(Ok(t)) => Some(t),
+            _ => None,
+        };
+        if let Err(p) = crate::replay::exercise_everything(&src, tree) {
+            ev["res"] = json!({"p": "panic", "v": enc_value(&Value::Empty), "e": no_err(), "panic": p});
+        }
         rec.emit(ev);
     }
 }
